@@ -346,6 +346,34 @@ check_one(int f, int s, int k, const uint8_t *msg, size_t blocks, int sa, int da
 	}
 }
 
+/* (iv) long inputs: 4..LONG_MAX_BLK blocks in one call (and, for the MACs, split over two calls) at every source alignment;
+ * whatever the implementation does per chunk of blocks, the result is the block-by-block reference */
+#define LONG_MAX_BLK 40
+static void
+check_long(int f, int s, int k, size_t blocks, int sa, int da, size_t split) {
+	uint8_t msg[LONG_MAX_BLK * 8], got[LONG_MAX_BLK * 8], want[LONG_MAX_BLK * 8];
+	size_t i, cmp = (F_MAC == f || F_MAC_BE == f) ? 8 : blocks * 8;
+	int rc;
+	char h1[40], h2[40];
+
+	for (i = 0; i < blocks * 8; i ++) msg[i] = (uint8_t)(0x9d + i * 0x6b + (i >> 3) * 0x35);
+	memset(&CUR, 0, sizeof(CUR));
+	CUR.what = "long input, bytes 0x9d + i*0x6b + (i/8)*0x35"; CUR.sbox = s; CUR.key = k; memcpy(CUR.msg, msg, 24); CUR.blocks = 3;
+	CUR.sa = sa; CUR.da = da; CUR.extra = (int)(blocks * 100 + split);
+	memset(want, 0, sizeof(want));
+	ref_apply(f, s, GKEYS[k], msg, blocks, want);
+	rc = lib_apply(f, s, GKEYS[k], msg, blocks, sa, da, split, 8, got);
+	if (2 == rc) { vh_fail("init-rc", "init refused a 32-byte key"); return; }
+	if (rc & 1) vh_fail("write-outside-dst", "bytes outside the destination changed (%zu blocks)", blocks);
+	if (rc & 4) vh_fail("src-modified", "source buffer changed (%zu blocks)", blocks);
+	if (0 != memcmp(got, want, cmp)) {
+		for (i = 0; i + 8 < cmp && 0 == memcmp(got + i, want + i, 8); i += 8) ;
+		vh_hex(h1, sizeof(h1), got + i, 8); vh_hex(h2, sizeof(h2), want + i, 8);
+		vh_fail("reference", "%zu blocks (first call %zu), source address %% 8 = %d: block %zu of the result is %s, reference %s", blocks, split, sa, i / 8, h1, h2);
+	} else if (0 == rc)
+		vh_nontrivial();
+}
+
 static void
 blocks_all(void) {
 	static const uint8_t A4[4] = { 0x00, 0x01, 0x80, 0xff };
@@ -392,6 +420,12 @@ blocks_all(void) {
 		if (!vh_begin(FN[f]))
 			continue;
 		check_one(f, s, k, MSGS[m], blocks, (int)(split + ms) % 8, (int)(blocks + ms) % 8, split, MS[ms]);
+	}
+	/* (iv) long inputs */
+	for (s = 0; s < NSBOX; s ++) for (blocks = 4; blocks <= LONG_MAX_BLK; blocks ++) for (sa = 0; sa < 8; sa ++) for (f = 0; f < F_N; f ++) {
+		if (!vh_begin(FN[f]))
+			continue;
+		check_long(f, s, 2 + (int)(blocks % 4), blocks, sa, (sa * 3 + (int)blocks) % 8, (F_MAC == f || F_MAC_BE == f) ? (blocks * (size_t)sa) / 8 : 0);
 	}
 }
 
